@@ -30,7 +30,7 @@ TIMEOUT = {"quick": 900, "thorough": 5400}
 DECIDING = ["finite_shapes", "flag_sound_residual", "flag_sound_pinv", "reported_residual_consistent", "history_lengths",
             "cgne_accurate", "cgne_monotone", "cgne_residual_truthful", "input_unchanged"]
 MUST_REACH = ["converged:rsp_column_qr", "converged:rsp_column_spd", "converged:rsp_row", "converged:hybrid", "converged:cgne",
-              "not_converged:any", "rsp:spd_path", "rsp:qr_path", "hybrid:proxy_every_10"]
+              "not_converged:any", "rsp:spd_path", "rsp:qr_path", "hybrid:proxy_every_10", "hybrid:converged_inside_cycle"]
 
 C = 1e3
 EPS = refq.EPS
@@ -176,8 +176,14 @@ def run_case(spec, ctx, R):
                "seed_via": str(rng.choice(["global", "constructor"])),
                "column_solver": "spd" if solver == "rsp_column_spd" else ("qr" if solver != "rsp_compute" else str(rng.choice(["qr", "spd"])))}
     elif solver == "hybrid":
-        cfg = {"r": (6 if force_hybrid6 else int(rng.integers(1, N + 1))), "p": int(rng.choice([2, 3, 4, 8])), "T": int(rng.choice([1, 5])), "tol": tol,
+        cfg = {"r": (6 if force_hybrid6 else int(rng.integers(1, N + 1))), "p": int(rng.choice([2, 3, 4, 8])), "T": int(rng.choice([1, 5, 1, 5, 2, 3, 10, 10, 12, 20, 30])), "tol": tol,
                "max_iter": int(rng.choice([1, 2, 3, 5, 8, 12, 20, 40, 200])), "column_solver": str(rng.choice(["qr", "spd"]))}
+        if spec["idx"] % 3 == 1 and not force_hybrid6:
+            # convergence detected INSIDE a cycle (the proxy is looked at after every 10th sketch step, before the hyperpower step): needs
+            # cycles of >= 10 steps and blocks wide enough to get there -- the history must still end at the returned (post-hyperpower) iterate
+            cfg.update(r=int(rng.integers(max(1, N - 1), N + 1)), T=int(rng.choice([10, 20, 15])), max_iter=int(rng.choice([40, 200])),
+                       tol=float(rng.choice([1e-3, 1e-5, 1e-6])))
+            tol = cfg["tol"]
     else:
         cfg = {"tol": tol, "max_iter": int(rng.choice([1, 2, 3, 4, 5, 6, 8, 10, 12, 16, 24, 500, 500, 500, 500])), "preconditioner_rank": int(rng.choice([0, 0, max(1, N // 2)]))}
     if solver.startswith("rsp") and spec["idx"] % 3 == 0:
@@ -212,8 +218,26 @@ def run_case(spec, ctx, R):
                 row = (solver == "rsp_row") or (solver == "rsp_compute" and m < n)
                 ssk = cfg["test_sketch_size"]
             elif solver == "hybrid":
-                X, info = S.HybridRSPNewtonSchulz(**cfg, **({"seed": sd} if (spec["idx"] % 2 or force_hybrid6) else {})).compute(A)
+                hyb = S.HybridRSPNewtonSchulz(**cfg, **({"seed": sd} if (spec["idx"] % 2 or force_hybrid6) else {}))
+                # boundary capture of the test sketch: the solver draws it from the global generator before anything else (four (n, min(6,n))
+                # component draws); recording what numpy hands out lets the last reported proxy be recomputed EXACTLY for the returned iterate
+                draws = []
+                orig_randn = np.random.randn
+
+                def rec_randn(*a, **kw):
+                    out = orig_randn(*a, **kw)
+                    if len(draws) < 4:
+                        draws.append(np.array(out, copy=True))
+                    return out
+                np.random.randn = rec_randn
+                try:
+                    X, info = hyb.compute(A)
+                finally:
+                    np.random.randn = orig_randn
                 row, ssk = False, min(6, n)
+                if len(draws) == 4 and all(d.shape == (n, ssk) for d in draws):
+                    captured.append(refq.qa(np.stack(draws, axis=-1)))
+                    ctx.hit("hybrid:test_sketch_captured")
             else:
                 X, info = S.CGNEQSolver(**cfg).compute(A)
                 row, ssk = False, None
@@ -257,6 +281,8 @@ def run_case(spec, ctx, R):
         # randomized solvers ---------------------------------------------------------------------------
         it = int(info.get("iterations", len(rn))) if solver != "hybrid" else len(rn)
         lens_ok = (it == len(rn)) and (solver == "hybrid" or (it <= cfg["max_iter"] and len(info.get("iteration_times", [])) == it))
+        if solver == "hybrid" and len(rn) >= 2 and rn[-2] <= cfg["tol"] and int(info.get("iterations_rsp", 1)) % 10 == 0:
+            ctx.hit("hybrid:converged_inside_cycle")
         if solver == "hybrid":
             lens_ok = lens_ok and int(info.get("iterations_rsp", -1)) <= cfg["max_iter"] + cfg["T"]
         ctx.check("history_lengths", lens_ok, site=site, detail=det)
